@@ -465,22 +465,9 @@ def _root_name(e):
 
 
 def _always_advances(u, callee, pname):
-    """Every path through callee advances *pname by a positive amount and nothing moves it backwards."""
-    from .out import _only_advances
-    if not _only_advances(u, callee, pname):
-        return False
-    cfg = callee.cfg()
-    key = '*' + pname
-    adv = set()
-    for n in cfg.nodes:
-        for ev in node_effects(n):
-            if ev.kind == 'incdec' and ev.delta > 0 and expr_str(ev.lhs) == key:
-                adv.add(n.id)
-            if ev.kind == 'store' and ev.node['op'] == '+=' and expr_str(ev.lhs) == key and (const_val(ev.node['r']) or 0) > 0:
-                adv.add(n.id)
-    if not adv:
-        return False
-    return cfg.exit.id not in cfg.reachable(cfg.entry.id, stop=adv)
+    """Every path through callee leaves *pname at least one byte after where it found it (rules/curdiff.py)."""
+    from .curdiff import moves_forward
+    return moves_forward(u, callee, pname, 1)
 
 
 # ---- BND6 loop progress -----------------------------------------------------------------------------------------------
